@@ -81,6 +81,7 @@ type c17Data struct {
 	Steps       []string          `json:"clock_steps"`
 	Reconf      *c17Reconf        `json:"reconfigured,omitempty"`
 	Home        string            `json:"home"`
+	Second      int               `json:"second_logger_lines,omitempty"`
 	InitDirs    []string          `json:"initial_dirs,omitempty"`
 	Sibling     string            `json:"sibling_file,omitempty"`
 	SiblingGone bool              `json:"sibling_removed,omitempty"`
@@ -250,7 +251,7 @@ func c17Body(rc *RunCtx) {
 		// and must carry on with the one it has.
 		left := 2
 		disk.FailOpen = func(p string, flag int) error {
-			if left == 0 || flag&simos.O_APPEND == 0 || !strings.HasPrefix(p, c17Home+"/logs/") || !simrt.ChanceF(1, 2) {
+			if left == 0 || flag&simos.O_APPEND == 0 || !strings.HasPrefix(p, c17Home+"/logs/") || strings.Contains(p, "-second") || !simrt.ChanceF(1, 2) {
 				return nil
 			}
 			left--
@@ -277,7 +278,7 @@ func c17Body(rc *RunCtx) {
 		// line being written may be lost; nothing else may be, in particular not the lines after it
 		left := 2
 		disk.FailWrite = func(p string) error {
-			if left == 0 || !strings.HasPrefix(p, c17Home+"/logs/") || !simrt.ChanceF(1, 6) {
+			if left == 0 || !strings.HasPrefix(p, c17Home+"/logs/") || strings.Contains(p, "-second") || !simrt.ChanceF(1, 6) {
 				return nil
 			}
 			left--
@@ -364,6 +365,25 @@ func c17Body(rc *RunCtx) {
 				c.Return = simrt.Stamp()
 				c.RetMs, c.RetNs = dateutil.Now(), simrt.Elapsed()
 				simrt.SetOp(0)
+			}
+		})
+		tasks = append(tasks, tk)
+	}
+	// a second logger with another object name in the same home directory (same id): its
+	// lines belong in its own files, and the first logger's in theirs
+	if simrt.ChanceF(1, 5) {
+		lg2 := logfile.NewFileLogger(logfile.WithHomePath(c17Home), logfile.WithOnameLogID("second", d.LogID), logfile.WithLevel(0))
+		// both loggers prune by the shared id prefix: give the second one the first one's
+		// retention settings so that what must stay and what must go is the same for both
+		lg2.ApplyConfig(&stubConf{m: map[string]string{
+			"log_rotation_enabled": strconv.FormatBool(d.Rotation), "log_keep_days": strconv.Itoa(d.KeepDays),
+			"_log_interval": "0", "log_level": "debug"}})
+		n2 := 2 + simrt.ChooseF(4)
+		d.Second = n2
+		tk := simrt.GoNamed("logger-second", func() {
+			for i := 0; i < n2; i++ {
+				simrt.Sleep(time.Duration(simrt.ChooseF(3000)) * time.Millisecond)
+				lg2.Error(fmt.Sprintf("SECOND%04d", i), fmt.Sprintf("tk2-%04d", i))
 			}
 		})
 		tasks = append(tasks, tk)
@@ -721,6 +741,23 @@ func c17After(rc *RunCtx, res *simrt.Result) {
 			if a.Found == 1 && b.Found == 1 && a.File == b.File && a.Return != 0 && a.Return < b.Call && a.Off > b.Off {
 				viol("order", fmt.Sprintf("call #%d returned before call #%d was invoked but its line comes later in %s", a.N, b.N, a.File))
 			}
+		}
+	}
+	// the second logger's lines: each exactly once, in a file carrying its object name
+	for i := 0; i < d.Second; i++ {
+		tok := fmt.Sprintf("tk2-%04d", i)
+		n, where := 0, ""
+		for _, name := range finalNames {
+			if c := strings.Count(all[name], tok); c > 0 {
+				n += c
+				where = name
+			}
+		}
+		mix(uint64(n))
+		if n != 1 {
+			viol("second-logger", fmt.Sprintf("line %s of the second logger (object name \"second\") appears %d times in the log files", tok, n))
+		} else if !strings.HasPrefix(where, d.LogID+"-second-") && where != d.LogID+"-second.log" {
+			viol("second-logger", fmt.Sprintf("line %s of the second logger (object name \"second\") was written to %s", tok, where))
 		}
 	}
 	// retention
